@@ -168,6 +168,12 @@ pub fn profile(id: &str) -> Option<Profile> {
     if p.kind == Kind::Fault {
         crate::faultrun::fault_gen(&mut p);
     }
+    if p.kind == Kind::Conformance {
+        crate::confrun::conf_gen(&mut p);
+    }
+    if p.kind == Kind::Malformed {
+        crate::malrun::mal_gen(&mut p);
+    }
     Some(p)
 }
 
